@@ -127,5 +127,6 @@ def run(module, cfg=None, workers=16, env=None, timeout=3600, xss="256m", xmx=No
     if res.violated:
         return res
     if not res.completed or "Error:" in out or "Parsing or semantic analysis failed" in out:
-        raise TlcError(f"TLC failed on {module} ({cfg}):\n{out[-4000:]}")
+        k = out.find("Error:")
+        raise TlcError(f"TLC failed on {module} ({cfg}):\n{out[max(0, k - 200):k + 2500] if k >= 0 else out[-4000:]}")
     return res
